@@ -24,6 +24,12 @@ type DeepX struct {
 	M  int
 }
 
+// Holder is used with the SAME type on both sides and has a struct-typed member.
+type Holder struct {
+	In Inner
+	N  int
+}
+
 type Emb struct {
 	E1 int
 	E2 string
@@ -43,6 +49,11 @@ type Src struct {
 	Imp   ext.Owner
 	Extra string
 	note  string
+	Same  Holder
+	Meta  struct {
+		Tag string
+		rev int
+	}
 }
 
 func (s *Src) Title() string          { return s.Name }
@@ -63,6 +74,12 @@ type Dst struct {
 	Imp   ext.Pet
 	Title string
 	Miss  int
+	Same  Holder
+	Meta  struct {
+		Tag   string
+		rev   int
+		owner string
+	}
 }
 
 func Up(s string) string            { return s }
